@@ -174,6 +174,12 @@ def observe_call(tid, ident, case, seed, modes, build, plain_fn, inpl_fn, contig
         sharers.append(("owner", qtn.TensorNetwork([x], virtual=True)))
         sharers.append(("second-owner", qtn.TensorNetwork([x], virtual=True)))
     arrays = U.arrays_of(x, a, kw)
+    keep_out = set()
+    for o in [x] + argobjs:
+        if U.is_tn(o):
+            keep_out.update(o.outer_inds())
+        elif U.is_tensor(o):
+            keep_out.update(o.inds)
     cin = U.Canon((x, a, kw), known)
     st_in = cin.struct()
 
@@ -206,10 +212,11 @@ def observe_call(tid, ident, case, seed, modes, build, plain_fn, inpl_fn, contig
     rec["arrays"] = _pairs(b_arr, [U.array_bytes_hash(z) for z in arrays])
     c1 = None
     if exc1:
-        rec["plain"] = {"exc": exc1, "st": EXC_ST, "stw": EXC_ST, "stv": EXC_ST, "dq": 0}
+        rec["plain"] = {"exc": exc1, "st": EXC_ST, "stw": EXC_ST, "stv": EXC_ST, "dq": 0, "isrecv": False}
     else:
-        c1 = U.Canon(post(r1), known)
-        rec["plain"] = {"exc": "", "st": c1.struct(), "stw": c1.struct(weak=1), "stv": c1.struct(weak=2), "dq": 0}
+        c1 = U.Canon(post(r1), known, keep_out)
+        rec["plain"] = {"exc": "", "st": c1.struct(), "stw": c1.struct(weak=1), "stv": c1.struct(weak=2), "dq": 0,
+                        "isrecv": bool(any(o is x for o in ([r1] + (list(r1) if isinstance(r1, (list, tuple)) else []))))}
         mine = {id(t) for o in [x] + argobjs for t in ([o] if U.is_tensor(o) else (o.tensor_map.values() if U.is_tn(o) else []))}
         rec["aliases"] = sum(1 for o in U.walk_objects(r1) for t in ([o] if U.is_tensor(o) else (o.tensor_map.values() if U.is_tn(o) else []))
                              if id(t) in mine)
@@ -226,7 +233,7 @@ def observe_call(tid, ident, case, seed, modes, build, plain_fn, inpl_fn, contig
             ip.update({"st": EXC_ST, "dq": 0})
         else:
             res2 = y if r2 is None else r2
-            c2 = U.Canon(post(res2), known)
+            c2 = U.Canon(post(res2), known, keep_out)
             ip["st"] = c2.struct()
             ip["dq"] = U.compare(c1, c2, case.tol) if c1 is not None else 0
         rec["inpl"] = ip
@@ -248,7 +255,7 @@ def observe_call(tid, ident, case, seed, modes, build, plain_fn, inpl_fn, contig
             if exc3:
                 p.update({"st": EXC_ST, "dq": 0})
             else:
-                c3 = U.Canon(post(r3), known)
+                c3 = U.Canon(post(r3), known, keep_out)
                 p["st"] = c3.struct()
                 if c1 is None or case.rnd:
                     p["dq"] = 0
@@ -523,10 +530,11 @@ def replay_behaviour(beh, tid, seed):
                                 "args": _pairs(b_args, [U.fp_raw(v) for v in argobjs]), "perm": []})
                     c1 = None
                     if exc1:
-                        rec["plain"] = {"exc": exc1, "st": EXC_ST, "stw": EXC_ST, "stv": EXC_ST, "dq": 0}
+                        rec["plain"] = {"exc": exc1, "st": EXC_ST, "stw": EXC_ST, "stv": EXC_ST, "dq": 0, "isrecv": False}
                     else:
                         c1 = U.Canon(r1, known)
-                        rec["plain"] = {"exc": "", "st": c1.struct(), "stw": c1.struct(weak=1), "stv": c1.struct(weak=2), "dq": 0}
+                        rec["plain"] = {"exc": "", "st": c1.struct(), "stw": c1.struct(weak=1), "stv": c1.struct(weak=2), "dq": 0,
+                                        "isrecv": bool(r1 is x)}
                     if kind == "plain":
                         # the in-place spelling on the copy taken before the plain call
                         bound, a2, _ = real_call(ycopy, f, arg, True)
@@ -574,8 +582,8 @@ def replay_behaviour(beh, tid, seed):
 
 MODEL_ACTIONS = ("CopyA", "VCopyA", "AdoptA", "PermuteA", "PlainA", "InplaceA", "AddA", "CombineA")
 SELFTESTS = (("MC_dev_write.cfg", "an in-place method writes into the shared buffer (data *= c)", ("PlainPureInv", "ArraysUntouchedInv", "SharersUntouchedInv", "CopyIsolatedInv")),
-             ("MC_dev_self.cfg", "a plain tensor spelling starts with x = self", ("PlainPureInv",)),
-             ("MC_dev_netself.cfg", "a plain network spelling starts with tn = self", ("PlainPureInv", "SharersUntouchedInv")),
+             ("MC_dev_self.cfg", "a plain tensor spelling starts with x = self", ("PlainPureInv", "PlainReturnsNewObjectInv")),
+             ("MC_dev_netself.cfg", "a plain network spelling starts with tn = self", ("PlainPureInv", "SharersUntouchedInv", "PlainReturnsNewObjectInv")),
              ("MC_dev_axis.cfg", "a method reads the array by axis number", ("PermInvariantInv", "ResultIsRefInv")),
              ("MC_dev_align.cfg", "a binary operator combines arrays position by position", ("PermInvariantInv", "ResultIsRefInv")))
 
@@ -657,7 +665,7 @@ def run(ctx):
         r = n["record"]
         ctx.notes.append("%s: %s %s %s" % (n["clause"], r.get("cls", ""), r.get("name", ""), r.get("case", r.get("reason", ""))))
     ctx.extra["notes_total"] = len(notes)
-    ctx.clauses.update(["PlainPure", "SharersUntouched", "ArraysUntouched", "PlainIsInplaceOnCopy", "CopyIsolated",
+    ctx.clauses.update(["PlainPure", "PlainReturnsNewObject", "SharersUntouched", "ArraysUntouched", "PlainIsInplaceOnCopy", "CopyIsolated",
                         "InplaceReturnsSelf", "PermInvariant", "Covered", "CoverageComplete", "CoverageFloor",
                         "model: PlainPureInv SharersUntouchedInv ArraysUntouchedInv PlainIsInplaceOnCopyInv CopyIsolatedInv "
                         "PermInvariantInv ResultIsRefInv InplaceLocalInv QuietStepInv"])
